@@ -137,7 +137,7 @@ def write_cfg(d, name, base, overrides=None, drop_invariants=(), add=()):
 def tlc(d, module, cfg, workers=None, timeout=600, simulate=None, depth=None, deque=False, extra=(), xss=False):
     """Run TLC in directory d. Returns dict(rc, out, generated, distinct, violated, wall)."""
     md = tempfile.mkdtemp(prefix="md-", dir=d)
-    cmd = ["tlc", "-workers", str(workers or min(NCPU, 16)), "-metadir", md, "-config", cfg]
+    cmd = ["tlc", "-workers", str(workers or min(NCPU, 16)), "-metadir", md, "-checkpoint", "0", "-config", cfg]
     if simulate:
         cmd += ["-simulate", simulate]
     if depth:
@@ -188,9 +188,17 @@ def mc_expect_violation(d, module, cfg, invariant, label, res, **kw):
     return r
 
 
-def tlc_trace(d, module, cfg, tracefile, nlines, timeout=900, label="trace", xss=False):
+CHUNK_LINES = 250000
+
+
+def tlc_trace(d, module, cfg, tracefile, nlines, timeout=900, label="trace", xss=False, boundary=None):
     """Validate the ndjson trace `tracefile` (copied to d/trace.ndjson).
-    Returns (fails, r): fails = [(line, clause, extra)] printed by the trace spec."""
+    Returns (fails, r): fails = [(line, clause, extra)] printed by the trace spec.
+    boundary: substring marking the lines at which the trace spec resets all its state (start of an execution); a
+    trace longer than CHUNK_LINES is then cut at such lines and the pieces are validated one after the other (TLC
+    holds the whole file in memory), line numbers are reported relative to the whole trace."""
+    if boundary is not None and nlines > CHUNK_LINES:
+        return _tlc_trace_chunked(d, module, cfg, tracefile, timeout, xss, boundary)
     dst = os.path.join(d, "trace.ndjson")
     if os.path.abspath(tracefile) != os.path.abspath(dst):
         shutil.copyfile(tracefile, dst)
@@ -202,6 +210,43 @@ def tlc_trace(d, module, cfg, tracefile, nlines, timeout=900, label="trace", xss
         raise Infra("trace validation %s did not complete (rc=%d):\n%s\n...\n%s" % (module, r["rc"], "\n".join(errs), r["out"][-1500:]))
     r["consumed"] = consumed
     return fails, r
+
+
+def _tlc_trace_chunked(d, module, cfg, tracefile, timeout, xss, boundary):
+    fails = []
+    agg = dict(rc=0, out="", generated=0, distinct=0, violated=[], wall=0.0, consumed=True, chunks=0)
+    base = 0          # lines before the current chunk
+    buf = []
+    k = 0
+
+    def flush():
+        nonlocal base, buf, k
+        if not buf:
+            return
+        cd = os.path.join(d, "chunk-%d" % k)
+        os.makedirs(cd, exist_ok=True)
+        for f in os.listdir(d):
+            if f.endswith(".cfg") or f.endswith(".tla"):
+                shutil.copyfile(os.path.join(d, f), os.path.join(cd, f))
+        with open(os.path.join(cd, "trace.ndjson"), "w") as f:
+            f.writelines(buf)
+        fl, r = tlc_trace(cd, module, cfg, os.path.join(cd, "trace.ndjson"), len(buf), timeout=timeout, xss=xss)
+        fails.extend((ln + base, cl, ex) for (ln, cl, ex) in fl)
+        agg["generated"] += r["generated"]; agg["distinct"] += r["distinct"]; agg["wall"] += r["wall"]
+        agg["violated"] += r["violated"]; agg["consumed"] = agg["consumed"] and r["consumed"]
+        agg["out"] = r["out"][-3000:]; agg["chunks"] += 1
+        shutil.rmtree(cd, ignore_errors=True)
+        base += len(buf)
+        buf = []
+        k += 1
+
+    with open(tracefile) as f:
+        for line in f:
+            if len(buf) >= CHUNK_LINES and boundary in line:
+                flush()
+            buf.append(line)
+    flush()
+    return fails, agg
 
 
 def read_lines(path):
@@ -361,7 +406,7 @@ def run_core_family(res, work, family, tier, seed, parts=8, timeout=1800, clause
         meta = read_meta(d)
         if meta["execs"] == 0:
             return d, meta, [], None
-        fails, r = tlc_trace(d, "TallyObsTrace.tla", "TallyObsTrace.cfg", os.path.join(d, "trace.ndjson"), meta["events"], timeout=timeout)
+        fails, r = tlc_trace(d, "TallyObsTrace.tla", "TallyObsTrace.cfg", os.path.join(d, "trace.ndjson"), meta["events"], timeout=timeout, boundary='"e":"scn"')
         if r["violated"] or not r["consumed"]:
             raise Infra("TallyObsTrace did not consume trace of part %d: %s\n%s" % (i, r["violated"], r["out"][-3000:]))
         return d, meta, fails, r
